@@ -32,6 +32,9 @@ def seeds():
                                       stub=rng.choice([b"", b"\xfc\xe8" + b"\x90" * 5 + b"\xff\xff\xff"])))
     out.append(gens.guardrails_payload(b"envkey", (5, 6, 7, 8), config=blk[:2000], prefix=b"\x90" * 5, suffix=b"\xcc" * 4))
     out.append(gens.guardrails_payload(b"k", terminator=False))
+    # guard configurations whose checksum value is not a dword (0-3 and 6 bytes)
+    for n in (0, 1, 2, 3, 6):
+        out.append(gens.guardrails_payload(b"envkey", (5,), config=blk[:500], prefix=b"\x90" * 3, checksum_len=n))
     # Guardrails areas that are as regular as they can be (one distinct n-gram at some key lengths), checksum right and wrong
     for key in (b"AA", b"AB", b"\x2e\x2e", b"ABAB"):
         for bad in (True, False):
